@@ -1,7 +1,7 @@
 """Helpers shared by several property modules (decision-table extraction, pattern/field checks)."""
 import re
 
-from .facts import render, strip, alternatives, resolve_conds, cond_str, walk, AnchorLost, fn_key
+from .facts import render, strip, alternatives, resolve_conds, cond_str, walk, AnchorLost, fn_key, inline_calls, inlinable
 from .data import abstract_tokens
 from . import model
 
@@ -172,7 +172,12 @@ def pattern_field_check(ctx, rid, rule_name, notes_only=False):
 def result_alternatives(b):
     """[(variant of Result ('Ok'/'Err'), inner expr, conds)] of a function returning Result<..>"""
     out = []
-    for a, conds in alternatives(b, b.local_expr(0)):
+    ret = b.local_expr(0)
+    if strip(ret)[0] == 'call' and inlinable(b.facts, strip(ret)[1]) is not None:
+        # the rule function delegates to a crate-local helper (a shared body, a closure-parameterised combinator): its
+        # result is the helper's result with the arguments substituted; the field getters stay leaves
+        ret = inline_calls(b.facts, ret, depth=2, skip=r'^tokinizer::tools::get_|^tools::')
+    for a, conds in alternatives(b, ret):
         a = strip(a)
         if a[0] == 'aggr' and a[1].startswith('core::result::Result::'):
             v = a[1].rsplit('::', 1)[1]
